@@ -54,7 +54,14 @@ var fedShapes = []fedShape{
 		rep: func(i int) map[string]any {
 			return map[string]any{"__typename": "Delta", "id": "d" + sfx(i), "size": json.Number(strconv.Itoa(50 + i))}
 		},
-		want:    func(i int) string { return `{"__typename":"Delta","id":"d` + sfx(i) + `","size":` + strconv.Itoa(50+i) + `,"weight":1000}` },
+		want: func(i int) string {
+			if probeConfigName == "fed_computed" {
+				// computed_requires: the external field is not stored on the entity; the resolver of the
+				// requiring field receives this representation's required fields (weight = 1000 + size)
+				return `{"__typename":"Delta","id":"d` + sfx(i) + `","size":0,"weight":` + strconv.Itoa(1050+i) + `}`
+			}
+			return `{"__typename":"Delta","id":"d` + sfx(i) + `","size":` + strconv.Itoa(50+i) + `,"weight":1000}`
+		},
 		lookups: func(i int) string { return "DeltaByID:d" + sfx(i) },
 	},
 	{ // 6 unknown type
@@ -129,6 +136,10 @@ func Harness_C20_entities() {
 	nshape := zzsym.Param("shapes", len(fedShapes))
 	for i := 0; i < n; i++ {
 		shapes[i] = zzsym.Choice("shape", nshape)
+		if zzsym.Param("requires", 0) == 1 {
+			// the shapes around @requires only: a plain entity, the batch type, the requiring entity, an unknown type
+			shapes[i] = []int{0, 2, 5, 6}[shapes[i]%4]
+		}
 		reps[i] = fedShapes[shapes[i]].rep(i)
 	}
 	got := fedRun(w, reps)
